@@ -320,11 +320,15 @@ func (cur *FieldMask) GetPath(desc *thrift_reflection.TypeDescriptor, path strin
 	// println("[PathInMask]")
 	last := cur
 	for it.HasNext() {
+		desc = unwrapDesc(desc)
+		if desc == nil {
+			return nil, false
+		}
 		// NOTICE: desc shoudn't empty here
 		// println("desc: ", curDesc.Name)
 
 		// NOTICE: empty fm for path means **IN MASK**
-		if cur == nil {
+		if !cur.Exist() {
 			return last, true
 		}
 		last = cur
